@@ -119,10 +119,21 @@ Definition st_list (st : wstate) : list Z :=
 
 Definition st_eqb (a b : wstate) : bool := Zl_eqb (st_list a) (st_list b).
 
-(* GetCongestionWindow, the pacer bandwidth before / after the floor, and the range property itself *)
+(* After every dumped event: GetCongestionWindow; bandwidthForPacer recomputed by the model from the dumped
+   pacingRate field (bits/s) and PacingRate()'s fallback - the bits/s -> bytes/s division and the floor are the
+   model's, the implementation only supplies its result; and the range property itself.
+   l[o] = GetCongestionWindow, l[o+1] = pacingRate field, l[o+2] = fallback oracle, l[o+3] = bandwidthForPacer() *)
 Definition tail_ok (st : wstate) (l : list Z) (o : nat) : bool :=
-  (get_cwnd st =? g l o) && (bandwidth_for_pacer (g l (o + 1)) =? g l (o + 2)) &&
+  (get_cwnd st =? g l o) &&
+  (bandwidth_for_pacer (pacing_rate (u64 (g l (o + 1))) (u64 (g l (o + 2)))) =? g l (o + 3)) &&
+  (c12_minBps <=? g l (o + 3)) &&
   (c12_minCongestionWindowPackets * mds st <=? get_cwnd st) && (get_cwnd st <=? maxCW st).
+
+(* calculateCongestionWindow recomputed on its own from the dumped inputs: the state just before it is the state
+   after the event with the window put back (it writes nothing else), mode and full-bandwidth flag already updated *)
+Definition calc_ok (agg : bool) (before after : wstate) (o : oracle) : bool :=
+  let pre := set_cwnd after (cwnd before) in
+  cwnd (calc_cwnd pre agg (o_target o) (o_maxAckHeight o) (o_excess o) (o_bytesAcked o) (o_totalAcked o)) =? cwnd after.
 
 (* one dumped event: recompute the modelled update from the dumped inputs and oracle values *)
 Definition dump_ok (agg : bool) (l : list Z) : bool :=
@@ -133,7 +144,7 @@ Definition dump_ok (agg : bool) (l : list Z) : bool :=
   | 1 => let o := mkO (g l 23) (g l 24 =? 1) (g l 25) (g l 26) (g l 27) (g l 28) (g l 29) (g l 30) in
          let st' := cong_event before agg (g l 17) (g l 18) (g l 19)
                       (if g l 20 =? 1 then Some (g l 21) else None) (g l 22 =? 1) o in
-         st_eqb st' (st_at l 31) && tail_ok st' l 47
+         st_eqb st' (st_at l 31) && calc_ok agg before (st_at l 31) o && tail_ok st' l 47
   | _ => match set_mds before (g l 17) with
          | Ok st' => st_eqb st' (st_at l 18) && tail_ok st' l 34
          | _ => false
